@@ -11,9 +11,9 @@ CONFIG = {
             "C13_cache_bounded": "full", "C13_set_cell_size_spec": "full (n >= 0)",
             "C13_chop_cells_spec": "full (width >= 2)", "C13_adjust_line_length_spec": "full (n >= 0)",
             "C13_split_and_crop_asis_refuted": "refutation witness of the pre-fix behaviour (D2)",
-            "split_and_crop_lines / set_shape composition": "not yet a theorem: validated by spec checkers on the implementation",
+            "C13_split_and_crop_lines_spec": "full (repaired code; n >= 0)", "C13_set_shape_spec": "full (width >= 0)",
         },
         "level_text": "Machine-checked Coq theorems, unbounded in strings/tables/histories, about an executable model of rich.cells, LRUCache use and Segment line shaping; the width table is regenerated from /repo each run and the model is compared with the implementation on every code point and on generated strings/segment lists.",
-        "level_note": "Trusted: Coq kernel+vm_compute, table translator, ExtrOcamlBasic extraction, OCaml, the harness; functools.lru_cache assumed a pure memo; OrderedDict semantics as modelled (get() does not reorder). split_and_crop_lines/set_shape are covered through adjust_line_length's theorem plus spec checks on implementation output, not yet by their own composition theorem.",
+        "level_note": "Trusted: Coq kernel+vm_compute, table translator, ExtrOcamlBasic extraction, OCaml, the harness; functools.lru_cache assumed a pure memo; OrderedDict semantics as modelled (get() does not reorder).",
         "assumptions": ["functools.lru_cache is a pure memo table", "style tokens abstracted to integers (parametric)"],
     }
